@@ -251,28 +251,47 @@ def oracle(c):
     return None
 
 
+D27_MODEL = {}   # line -> reply of the Lean model (the D27-explained expectation: fromStr applied to the str items)
+
+
+def d27_shaped(c):
+    return c["op"] == "join" and any(k == "s" and "\x1b[" in v for k, v in c["items"])
+
+
 def footprint(c, what):
-    """D27: join with a plain-str item that contains ESC[, and the ONLY deviation is the one explained by
-    fmtstr(str) parsing that item (result = the join of the parsed items); anything else is unlisted."""
-    if c["op"] == "join" and any(k == "s" and "\x1b[" in v for k, v in c["items"]):
-        try:
-            from curtsies.formatstring import fmtstr as _fmtstr
-            sep = wire.cells_of_chunks(c["sep"])
-            want = []
-            for i, (k, v) in enumerate(c["items"]):
-                if i:
-                    want += sep
-                want += wire.cells_of_chunks(v) if k == "f" else cells(_fmtstr(v))
-            if cells(run_impl(c)) == want:
-                return "D27"
-        except Exception:  # noqa: BLE001
-            return None
-    return None
+    """D27: join with a plain-str item containing ESC[, where EVERYTHING the real code does is what parsing that item
+    with fmtstr(str) explains - judged against the Lean model's `joinItems` (an independent parser, not the tree's own
+    fmtstr): same runs, and .s / len / truth value / a second observation / unchanged operands all consistent with
+    that parsed value. Any other deviation on such an input is an unlisted violation."""
+    if not d27_shaped(c):
+        return None
+    reply = D27_MODEL.get(line(c))
+    if reply is None or not reply.startswith("ok "):
+        return None
+    try:
+        want = wire.cells_of_chunks(wire.dec_fmt(reply[3:]))
+        r = run_impl(c)
+        text = "".join(ch for ch, _ in want)
+        ok = (reply_fmt(r) == reply and cells(r) == want and r.s == text and len(r) == len(want) and bool(r) == bool(text)
+              and r.s == text and len(r) == len(want))
+        for o, spec in LAST_OPERANDS:
+            w2 = wire.cells_of_chunks(spec)
+            ok = ok and cells(o) == w2 and o.s == "".join(ch for ch, _ in w2) and len(o) == len(w2)
+        return "D27" if ok else None
+    except Exception:  # noqa: BLE001
+        return None
 
 
 def check(ctx):
     cases = mk_cases(ctx)
     cases = cases + api_built_cases(ctx)
+    d27 = [c for c in cases if d27_shaped(c)]
+    try:
+        import lib
+        for c, rep in zip(d27, lib.run_driver([line(c) for c in d27])):
+            D27_MODEL[line(c)] = rep
+    except Exception as e:  # noqa: BLE001 - without the model nothing is attributed to D27
+        ctx.note("D27 expectations unavailable: %r" % (e,))
     ctx.tie("C06/ops", cases, line, impl, canon_cells, canon_cells)
     ctx.tie("C06/ops-run-level", cases, line, impl)   # un-canonicalised: run structure too (C09/C15/C16 reuse getslice)
     for c in cases:
